@@ -8,6 +8,7 @@ import (
 	"fmt"
 	"log"
 	"strings"
+	"sync"
 	"testing"
 	"testing/synctest"
 
@@ -51,6 +52,12 @@ type C18Sc struct {
 	// real console; ByteWriter = the real console also offers WriteByte (io.ByteWriter).
 	PreWriter  string `json:"pre_writer,omitempty"`
 	ByteWriter bool   `json:"byte_writer,omitempty"`
+	// Second: after the program has ended (halted at FF03) the host loads these items as a second
+	// program at 0100h on the SAME machine and CPU value, sets PC/SP and drives it with Step.
+	Second []C18Item `json:"second,omitempty"`
+	// Concurrent: several independent machines (each its own Memory, IO, CPU, console) run at the same
+	// time on their own goroutines (side-car: free threads; also in the -race binary).
+	Concurrent []C18Sc `json:"concurrent,omitempty"`
 }
 
 type c18 struct{}
@@ -61,6 +68,35 @@ func (c18) ID() string       { return "C18" }
 func (c18) New() interface{} { return &C18Sc{} }
 
 func (c18) Gen(r *world.Rng, tier string, n int) interface{} {
+	if strings.HasSuffix(tier, "-race") || n%12 == 7 {
+		top := &C18Sc{}
+		for k := r.Range(2, 4); k > 0; k-- {
+			sub := c18Plain(r, tier)
+			top.Concurrent = append(top.Concurrent, *sub)
+		}
+		return top
+	}
+	sc := c18GenOne(r, tier, n)
+	if len(sc.Events) == 0 && len(sc.CancelAt) == 0 && !sc.BadFnFinal && sc.TightStack == "" && r.Chance(1, 5) {
+		sc.Second = c18Plain(r, tier).Items
+	}
+	return sc
+}
+
+// c18Plain: a program without faults, events or host tricks.
+func c18Plain(r *world.Rng, tier string) *C18Sc {
+	s := c18GenOne(r, tier, 0)
+	s.WriteFail, s.Events, s.CancelAt, s.BPAfter, s.TightStack, s.PreWriter = nil, nil, nil, false, "", ""
+	if s.BadFnFinal {
+		s.BadFnFinal = false
+		s.Items = s.Items[:len(s.Items)-1]
+	}
+	s.SP = 0xf800
+	s.Regs.SP = s.SP
+	return s
+}
+
+func c18GenOne(r *world.Rng, tier string, n int) *C18Sc {
 	sc := &C18Sc{}
 	regs := world.RandRegs(r)
 	regs.PC = tinycpm.Start
@@ -283,6 +319,34 @@ func c18Assemble(sc *C18Sc) (prog []uint8, rets []uint16, expect []byte, warns i
 
 func (c18) Exec(sci interface{}, env *Env) (res *Violation) {
 	sc := sci.(*C18Sc)
+	if len(sc.Concurrent) > 0 {
+		// machines share nothing: each must print exactly what its program asks for
+		out := make([]*Violation, len(sc.Concurrent))
+		var wg sync.WaitGroup
+		for i := range sc.Concurrent {
+			wg.Add(1)
+			go func(i int) {
+				defer wg.Done()
+				defer func() {
+					if r := recover(); r != nil {
+						out[i] = viol("panic", "machine %d: %v", i, r)
+					}
+				}()
+				q := NewEnv()
+				q.Quiet = true
+				out[i] = c18Run(&sc.Concurrent[i], q, false)
+			}(i)
+		}
+		wg.Wait()
+		for i, v := range out {
+			if v != nil {
+				return viol("console-stream-concurrent", "machine %d of %d running concurrently: %s", i, len(sc.Concurrent), v)
+			}
+		}
+		env.Fire("machines-running-concurrently")
+		env.NonTrivial = true
+		return nil
+	}
 	if len(sc.CancelAt) == 0 {
 		return c18Run(sc, env, false)
 	}
@@ -307,7 +371,18 @@ func (c18) Exec(sci interface{}, env *Env) (res *Violation) {
 	return res
 }
 
-func c18Run(sc *C18Sc, env *Env, bubble bool) *Violation {
+type c18Runaway struct{}
+
+func c18Run(sc *C18Sc, env *Env, bubble bool) (res *Violation) {
+	defer func() {
+		if r := recover(); r != nil {
+			if _, ok := r.(*c18Runaway); ok {
+				res = viol("end-state", "the machine was still running after 40 million memory accesses: a jump to address 0 must end the run")
+				return
+			}
+			panic(r)
+		}
+	}()
 	prog, rets, expect, warns, strs := c18Assemble(sc)
 	mem, io := tinycpm.New()
 	for i, b := range prog {
@@ -368,8 +443,8 @@ func c18Run(sc *C18Sc, env *Env, bubble bool) *Violation {
 				env.Fire("cancel-mid-run")
 			}
 		}
-		if tick > 2_000_000 {
-			panic("C18 world ran away (tick budget)")
+		if tick > 40_000_000 {
+			panic(&c18Runaway{})
 		}
 	}
 	cpu.Memory = recMem{mem, &logAcc, &tick, func() {
@@ -423,6 +498,37 @@ func c18Run(sc *C18Sc, env *Env, bubble bool) *Violation {
 		}
 		finalErr = err
 		break
+	}
+	if len(sc.Second) > 0 && finalErr == nil && cpu.PC == 0xff03 {
+		// same machine, same CPU value (HALT field still set - the host does not touch it), Step-driven
+		s2 := &C18Sc{Items: sc.Second}
+		prog2, _, expect2, warns2, strs2 := c18Assemble(s2)
+		for i, b := range prog2 {
+			mem.Set(tinycpm.Start+uint16(i), b)
+		}
+		for _, s := range strs2 {
+			b, _ := s.Bytes()
+			for i, x := range b {
+				mem.Set(s.Addr+uint16(i), x)
+			}
+		}
+		cpu.PC, cpu.SP = tinycpm.Start, sc.SP
+		parked := 0
+		for i := 0; i < 3_000_000 && parked < 2; i++ {
+			cpu.Step()
+			if cpu.PC == 0xff03 {
+				parked++
+			} else {
+				parked = 0
+			}
+		}
+		if parked < 2 {
+			return viol("second-program", "a second program loaded on the same machine and driven by Step did not reach FF03 (PC=%04x, %d console bytes so far)", cpu.PC, len(fw.accepted))
+		}
+		expect = append(expect, expect2...)
+		warns += warns2
+		prog, strs = prog2, strs2
+		env.Fire("second-program-step-driven-on-the-same-machine")
 	}
 	if cpu.Interrupt == nil {
 		for i := range raised {
@@ -487,9 +593,8 @@ func c18Run(sc *C18Sc, env *Env, bubble bool) *Violation {
 	}
 	// warnings: one or more per offending port access, none otherwise, and no console byte from them
 	lines := strings.Count(warnBuf.String(), "\n")
-	if warns == 0 && lines != 0 {
-		return viol("warnings", "no port other than 0 was touched but %d warning lines were logged: %q", lines, clip([]byte(warnBuf.String())))
-	}
+	// (that nothing else ever warns is not part of the statement - e.g. logging a failed console write
+	// would be a reasonable thing to do - so only the lower bound is demanded)
 	if lines < warns {
 		return viol("warnings", "%d port accesses outside port-0 output, only %d warning lines", warns, lines)
 	}
